@@ -1412,7 +1412,6 @@ func isLoopTest(iff *ssa.If, region map[*ssa.BasicBlock]bool) bool {
 	return false
 }
 
-
 // ---------------------------------------------------------------------------------------------
 // unordered collections: a slice filled in map order and never sorted is fine as a report ("identical as a collection"), but not
 // as the input of a first-match search whose result is the matched element: then the answer depends on the iteration order.
